@@ -38,6 +38,21 @@ def run():
     probe("math.isclose default", lambda: math.isclose(1.0, 1.0 + 1e-10) and not math.isclose(0.0, 1e-12)
           and math.isclose(0.0, 1e-12, abs_tol=1e-9))
 
+    def generic_except():
+        from typing import Any, Generic, TypeVar
+        T = TypeVar("T")
+
+        class E(Exception, Generic[T]):
+            pass
+        try:
+            try:
+                raise E()
+            except E[Any]:
+                return False
+        except TypeError:
+            return True
+    probe("`except Cls[T]` raises TypeError when an exception reaches the clause", generic_except)
+
     from frequenz.sdk.microgrid._power_managing._base_classes import Proposal
     from frequenz.sdk.timeseries._base_types import Bounds
 
